@@ -4,7 +4,7 @@
 From Coq Require Import List Arith ZArith.
 From EN Require Import Lib.Bytes Frame.Framer Frame.ReadUntil Frame.BufReadUntil Stream.Consumer Stream.SpecDecode
   Frame.Serialize Frame.Convert Frame.JsonRaw Frame.JsonGrammar Frame.ErrSites Frame.Generic
-  Frame.Stapled Gen.ParamsC01 Proofs.C01_stapled Proofs.C07_extra Proofs.C01_generic Proofs.C01_json Proofs.C01_bufsim Proofs.C01_proofs Proofs.Convert_proofs Proofs.Fixed_proofs Proofs.BufFixed_proofs Proofs.Serialize_proofs.
+  Frame.Stapled Gen.ParamsC01 Proofs.C01_stapled Proofs.C07_extra Proofs.C01_generic Proofs.C01_json Proofs.C01_bufsim Proofs.C01_proofs Proofs.Convert_proofs Proofs.BufConvert_proofs Proofs.Fixed_proofs Proofs.BufFixed_proofs Proofs.Serialize_proofs.
 Import ListNotations.
 
 (* Copying consumer (StreamDataConsumer over read_until): for EVERY list of packets valid for the codec, EVERY way of
@@ -68,6 +68,35 @@ Proof.
   cbn [map conv_ev]. rewrite Hp, IH. reflexivity.
 Qed.
 Print Assumptions consumer_roundtrip_with_converter.
+
+(* The same on the buffer-filling path (BufferedStreamProtocol(serializer, converter) under BufferedStreamDataConsumer):
+   every delivery pattern and size hint, payload + separator < limit.  (General form, any buffered framer:
+   Proofs/BufConvert_proofs.v bcdeliver_conv.) *)
+Theorem bconsumer_roundtrip_with_converter :
+  forall (Q P : Type) (sep : bytes) (keep_end : bool) (enc : Q -> bytes) (dec : decoder Q)
+         (to_dto : P -> Q) (from_dto : Q -> option P) (limit sizehint : nat),
+    sep <> [] -> length sep + 1 <= limit ->
+    forall (pkts : list P) (chunks : list bytes) (fuel : nat),
+      Forall (fun p => from_dto (to_dto p) = Some p) pkts ->
+      Forall (valid_pkt sep keep_end enc dec (limit - 1 - length sep)) (map to_dto pkts) ->
+      concat chunks = stream sep enc (map to_dto pkts) ->
+      length (stream sep enc (map to_dto pkts)) < fuel ->
+      let G := conv_bframer from_dto (bru_framer sep limit keep_end dec) in
+      exists c', bcdeliver G sizehint fuel (bcinit _) chunks = (c', map RPkt pkts) /\
+                 bcons c' = None /\ balready c' = 0 /\ bexported c' = None.
+Proof.
+  intros Q P sep keep_end enc dec to_dto from_dto limit sizehint Hne Hl pkts chunks fuel Hconv Hv Hc Hf G.
+  pose proof (bcdeliver_conv from_dto (bru_framer sep limit keep_end dec) sizehint fuel chunks (bcinit _)) as H.
+  change (bconv_st from_dto (bru_framer sep limit keep_end dec) (bcinit (bru_framer sep limit keep_end dec))) with (bcinit G) in H.
+  fold G in H.
+  destruct (bconsumer_roundtrip_l sep keep_end enc dec Hne limit sizehint (map to_dto pkts) chunks fuel Hl Hv Hc Hf)
+    as (c' & Hd & H1 & H2 & H3).
+  rewrite Hd in H. cbn [fst snd] in H.
+  exists (bconv_st from_dto (bru_framer sep limit keep_end dec) c'). split; [|repeat split; assumption].
+  rewrite H. f_equal. clear - Hconv. induction Hconv as [|p pkts Hp _ IH]; [reflexivity|].
+  cbn [map conv_ev]. rewrite Hp, IH. reflexivity.
+Qed.
+Print Assumptions bconsumer_roundtrip_with_converter.
 
 (* Sending side (incremental_serialize of StringLineSerializer and AutoSeparatedPacketSerializer, with or without the
    separator check): for every transmittable payload (non-empty; the separator first occurs in payload ++ separator at
